@@ -42,7 +42,7 @@ ID = "C18"
 LEVEL = "exploration"
 TECHNIQUE = "differential execution (plain call vs decorated call) on a real event loop with executor threads; thread-identity and heartbeat probes; context probes inside and after the call"
 RULE = (
-    "cases = (decorator, function or bound method, signature, call form, outcome kind, executor, scope depth); the product over 7 signatures x their call forms x {value, raise Exception, raise BaseException, cancelled inside (traced async)} x "
+    "cases = (decorator, function or bound method, signature, call form, outcome kind, executor, scope depth); the product over 8 signatures x their call forms x {value, raise Exception, raise BaseException, cancelled inside (traced async)} x "
     "decorator variants x depth 0-3 is enumerated; non-trivial = the call uses keyword arguments or is a bound method or raises; distinct by case tuple"
 )
 ASSUMPTIONS = [
@@ -52,7 +52,7 @@ ASSUMPTIONS = [
 MINIMUMS = {"monitor:transparent": 1500, "monitor:off-loop-thread": 300, "monitor:caller-context": 300, "monitor:no-leak": 300, "monitor:traced-scope": 200, "monitor:mimic": 20, "method_calls": 150, "kwargs_calls": 400}
 JOBS = {"quick": 4, "thorough": 8}
 LEVEL_TEXT = (
-    "Every (signature, call form, outcome) of a 7-signature family is run plainly and through asynchronous (function / method, default / explicit executor, both decorator forms), "
+    "Every (signature, call form, outcome) of an 8-signature family is run plainly and through asynchronous (function / method, default / explicit executor, both decorator forms), "
     "wrap_async and traced from scope depths 0-3 on a real loop with real executor threads; results are compared structurally with token identity, exceptions by identity; thread "
     "identity, loop liveness, context visibility and non-leakage are probed inside and after each call; wrapper metadata of all seven decorators is compared with the original's."
 )
@@ -144,9 +144,15 @@ def f6(ctl: dict[str, Any], *args: Any, **kwargs: Any) -> Any:
     return _finish("f6", (args, tuple(sorted(kwargs.items(), key=lambda kv: kv[0]))), ctl)
 
 
-FUNCS = {"f0": f0, "f1": f1, "f2": f2, "f3": f3, "f4": f4, "f5": f5, "f6": f6}
+def f7(ctl: dict[str, Any], cls: Any = None, value: Any = None, args: Any = (), kwargs: Any = None, function: Any = None) -> Any:
+    """doc of f7 - parameter names that helper internals like to use themselves"""
+    return _finish("f7", (cls, value, args, kwargs, function), ctl)
+
+
+FUNCS = {"f7": f7, "f0": f0, "f1": f1, "f2": f2, "f3": f3, "f4": f4, "f5": f5, "f6": f6}
 # call forms: (args after ctl, kwargs)
 FORMS: dict[str, list[tuple[tuple[Any, ...], dict[str, Any]]]] = {
+    "f7": [(("A",), {}), ((), {"cls": "A"}), ((), {"value": 1, "cls": "A"}), ((), {"args": (1, 2), "kwargs": {"k": "A"}}), ((), {"function": "A", "value": None})],
     "f0": [((), {})],
     "f1": [(("A",), {}), ((), {"a": "A"})],
     "f2": [(("A",), {}), (("A", "B"), {}), (("A",), {"b": "B"}), ((), {"a": "A", "b": "B"}), ((), {"b": "B", "a": "A"})],
